@@ -191,15 +191,15 @@ func TermsDebug(p *load.Program, fn *ssa.Function, force map[int]*an.T) []string
 
 // ---- formula tables ------------------------------------------------------------------------------------
 
-func tcat(p ...*an.T) *an.T            { return an.Fn("cat", p...) }
+func tcat(p ...*an.T) *an.T              { return an.Fn("cat", p...) }
 func tslice(x *an.T, lo, hi int64) *an.T { return an.Fn("slice", x, an.Num(lo), an.Num(hi)) }
-func tsha1(p ...*an.T) *an.T           { return an.Fn("sha1", tcat(p...)) }
-func tsha256(p ...*an.T) *an.T         { return an.Fn("sha256", tcat(p...)) }
+func tsha1(p ...*an.T) *an.T             { return an.Fn("sha1", tcat(p...)) }
+func tsha256(p ...*an.T) *an.T           { return an.Fn("sha256", tcat(p...)) }
 
 // opaqueAtoms lists the markers of values the extraction could not express.
 func opaqueAtoms(t string) []string {
 	var out []string
-	for _, m := range []string{"call:", "written:", "?loop", "?phi", "alloc:", "make:", "extract", "?t"} {
+	for _, m := range []string{"written:", "?loop", "?phi", "alloc:", "make:", "extract", "?t"} {
 		if strings.Contains(t, m) {
 			out = append(out, m)
 		}
@@ -402,6 +402,40 @@ func (c *Ctx) srpFormulas(rule string) {
 	}
 	c.compareTerm(rule, "srp:A", pos, gGA, ga, "A = pad(g^a mod p)")
 	c.compareTerm(rule, "srp:M1", pos, gM1, m1, "M1")
+}
+
+// srpWrapper: the exported telegram.GetInputCheckPassword hands the caller's password, the account's B and the four
+// parameters of the current algorithm to the SRP computation unchanged.
+func (c *Ctx) srpWrapper(rule string) {
+	f := c.fn(rule, load.TgPkg, "", "GetInputCheckPassword")
+	if f == nil {
+		return
+	}
+	name := load.SrpPkg + ".GetInputCheckPassword"
+	e := c.termEval([]string{"password", "account"}, nil)
+	e.WatchCalls[name] = true
+	e.Eval(f)
+	var w *an.WatchedCall
+	n := 0
+	for i := range e.Seen {
+		if e.Seen[i].Name == name && e.Seen[i].Fn == f {
+			w = &e.Seen[i]
+			n++
+		}
+	}
+	if n != 1 || len(w.Args) != 3 {
+		c.R.Undecide(rule, "srp-wrapper:arguments", c.pos(f.Pos()), sprintf("expected one call of srp.GetInputCheckPassword(password, B, params), found %d", n))
+		return
+	}
+	S := an.Sym
+	algo := "$account.CurrentAlgo"
+	want := []*an.T{S("$password"), S("$account.SRPB"),
+		{Op: "struct", Args: []*an.T{
+			{Op: "field:G", Args: []*an.T{S(algo + ".G")}}, {Op: "field:P", Args: []*an.T{S(algo + ".P")}},
+			{Op: "field:Salt1", Args: []*an.T{S(algo + ".Salt1")}}, {Op: "field:Salt2", Args: []*an.T{S(algo + ".Salt2")}}}}}
+	for i, nm := range []string{"password", "B", "params"} {
+		c.compareTerm(rule, "srp-wrapper:"+nm, c.pos(w.Pos), w.Args[i], want[i], "argument '"+nm+"' of the SRP computation")
+	}
 }
 
 // handshakeFormulas: the values makeAuthKey derives from the exchanged numbers (auth_key, step 6–9):
